@@ -90,6 +90,7 @@ ARCH_INFO = {
     "mips32b": {"attrib": "b", "jitarch": "mips32", "pcregs": ("PC", "PC_FETCH")},
 }
 BE_TWIN = {"armb": "arml", "mips32b": "mips32l"}
+TWIN_FLAVOUR = {"x86_32": "x86_64", "x86_64": "x86_32", "arml": "armb", "armb": "arml", "mips32l": "mips32b", "mips32b": "mips32l"}
 
 
 def family(arch):
@@ -1639,6 +1640,8 @@ class TestRun(object):
         self.terminal_fault = False
         self.want_restart = None
         self.stop_expected_pc = None
+        if self.backend == "gcc" and cfg["knobs"].get("twin") and self.arch in TWIN_FLAVOUR:
+            self.twin_prerun()
         j = make_jitter(self.arch, self.backend, self.prog, cfg["init_regs"], cfg["knobs"])
         self.j = j
         if cfg["knobs"].get("warm"):
@@ -1708,6 +1711,26 @@ class TestRun(object):
         else:
             self.setup_jitter(j)
         return self._drive(j)
+
+    def twin_prerun(self):
+        """An earlier user of the on-disk block cache: another flavour of the same architecture family (other
+        mode or byte order) translates the first block found at the same address in the same bytes.  The cache
+        directory is shared by every jitter of the process tree, as $TMPDIR/miasm_cache is on a real host."""
+        try:
+            tj = make_jitter(TWIN_FLAVOUR[self.arch], "gcc", self.prog, {}, {"maxline": self.cfg["knobs"].get("maxline", 50), "quantum": 1})
+            calls = [0]
+
+            def one_block(jitter):
+                calls[0] += 1
+                return calls[0] <= 1
+            tj.exec_cb = one_block
+            tj.init_run(self.prog.entry)
+            tj.continue_run()
+        except Discard:
+            raise
+        except Exception:
+            pass
+        self.probe("twin_flavour_prerun")
 
     def _drive(self, j):
         e = self.e
